@@ -901,6 +901,30 @@ class HeapExec(DynExec):
                 return [(s, fresh_str('group'))]
             m = self.new_obj(st, 'match', {'__methods__': {'groups': groups, 'group': group}})
             return [(s_none, None), (st, m)]
+        if getattr(f, '__name__', None) in ('search', 'split') and isinstance(getattr(f, '__self__', None), _re.Pattern):
+            # a method of a module-level compiled pattern (a constant of the module)
+            from .models import lib
+            pobj = f.__self__
+            zt = self.z_str(args[0])
+            RS = z3.Function('RE_SEARCH', z3.StringSort(), z3.IntSort(), z3.StringSort(), z3.BoolSort())
+            found = RS(z3.StringVal(pobj.pattern), z3.IntVal(int(pobj.flags)), zt)
+            if f.__name__ == 'search':
+                lib('<compiled pattern>.search(text): pure, uninterpreted predicate RE_SEARCH(p, flags, text)')
+                out = []
+                for s1, b in self.decide(st, found):
+                    out.append((s1, self.new_obj(s1, 'match', {}) if b else None))
+                return out
+            if len(args) == 2 and args[1] == 1:
+                # pattern.split(text, 1): [text] when the pattern is not found in the text, else two parts (unknown texts)
+                lib('<compiled pattern>.split(text, 1): one element iff not RE_SEARCH(p, flags, text), else two')
+                out = []
+                for s1, b in self.decide(st, found):
+                    if b:
+                        out.append((s1, self.new_list(s1, [('el', fresh_str('resplit_head')), ('el', fresh_str('resplit_tail'))])))
+                    else:
+                        out.append((s1, self.new_list(s1, [('el', args[0])])))
+                return out
+            raise OutsideSubset('pattern.split with maxsplit != 1')
         if f is _re.compile:
             # re.compile(pattern, flags) -> a pattern object; pattern.search(text) is None or a match object, decided by
             # the uninterpreted predicate RE_SEARCH(pattern, flags, text)  (CPython's re engine is trusted, pure)
